@@ -258,6 +258,30 @@ pub fn gen(rng: &mut Rng, miri: bool) -> ASet {
         sets.push(s);
     }
     let mut a = ASet { meta, clips, sets };
+    if rng.chance(1, 25) {
+        // two distinct names that collide under a common hash function; or the clip names as one
+        // numbered family
+        if rng.bool() {
+            let (x, y) = *rng.pick(&crate::refs::strings::COLLIDING_PAIRS);
+            let i = rng.below(257);
+            let j = (i + 1 + rng.below(256)) % 257;
+            a.clips[i] = Some(x.to_string());
+            a.clips[j] = Some(y.to_string());
+            if !a.sets.is_empty() && rng.bool() {
+                let k = rng.below(a.sets.len());
+                let slot = 1 + rng.below(256);
+                a.sets[k][slot] = Some(y.to_string());
+                a.sets[k][0] = Some(x.to_string());
+            }
+        } else {
+            let base = rng.range(250, 330);
+            for (i, cl) in a.clips.iter_mut().enumerate() {
+                if i % 2 == 0 || cl.is_some() {
+                    *cl = Some(format!("MID_{:05}", base + i));
+                }
+            }
+        }
+    }
     if rng.chance(1, 60) {
         // one name the Shift-JIS encoder cannot express: serialize must refuse it or keep it intact
         let u = Some(rng.pick(&crate::refs::strings::UNENCODABLE).to_string());
@@ -342,6 +366,64 @@ pub fn run(cx: &mut Ctx) {
         });
     }
     if !miri {
+        // a name of a little more than 1 MiB (slot name, clip name, set label, meta in turn)
+        cx.case("name_longer_than_1MiB", |c| {
+            c.sit("name_longer_than_1MiB");
+            let long: String = (0..(1usize << 20) + 16).map(|i| (b'a' + (i % 21) as u8) as char).collect();
+            for place in 0..4 {
+                let mut a = base.clone();
+                let mut s = empty_set(Some("AS_long".into()));
+                s[5] = Some("short".into());
+                match place {
+                    0 => s[200] = Some(long.clone()),
+                    1 => a.clips[100] = Some(long.clone()),
+                    2 => s[0] = Some(long.clone()),
+                    _ => a.meta = Some(long.clone()),
+                }
+                a.sets.push(s);
+                check(c, &a, "name_longer_than_1MiB");
+            }
+        });
+        // set labels that are long (so the label names take more room than everything in front of the
+        // text section) and that also occur as clip / slot names and as the meta string
+        cx.case("long_labels_that_are_also_names", |c| {
+            c.sit("long_labels_that_are_also_names");
+            for (nsets, len) in [(1usize, 1500usize), (3, 700), (2, 5000), (6, 300)] {
+                let mut a = base.clone();
+                let labels: Vec<String> = (0..nsets).map(|k| format!("AS_{}_{}", k, "L".repeat(len + 13 * k))).collect();
+                for (k, l) in labels.iter().enumerate() {
+                    let mut s = empty_set(Some(l.clone()));
+                    s[1 + k] = Some(labels[(k + 1) % nsets].clone());
+                    s[40] = Some("plain".into());
+                    s[256] = Some(l.clone());
+                    a.sets.push(s);
+                }
+                a.clips[3] = Some(labels[0].clone());
+                a.clips[256] = Some("AnimClipNameTable".into());
+                a.meta = Some(labels[nsets - 1].clone());
+                check(c, &a, "long_labels_that_are_also_names");
+            }
+        });
+        // label-name offsets swept across the size of everything in front of the text section: a
+        // name's offset inside the text section and a string's absolute position are different
+        // number spaces that overlap here
+        cx.case("label_name_offsets_sweep", |c| {
+            c.sit("label_name_offsets_sweep");
+            for l in (1000usize..1200).chain(2040..2100) {
+                let mut a = base.clone();
+                a.meta = Some("walk".into());
+                a.sets.push(empty_set(Some("walk".into())));
+                a.sets.push(empty_set(Some("y".repeat(l))));
+                let mut v = empty_set(Some("victim".into()));
+                if l % 2 == 0 {
+                    v[9] = Some("victim".into());
+                    a.clips[7] = Some("walk".into());
+                }
+                a.sets.push(v);
+                check(c, &a, "label_name_offsets_sweep");
+            }
+            c.eval(260);
+        });
         // thresholds: set counts at and around 256 / 1024 / 4096
         for count in [255usize, 256, 257, 1023, 1024, 1025, 4095, 4096, 4097] {
             cx.case("set_count_thresholds", |c| {
